@@ -52,7 +52,8 @@ def _run(ctx, spec):
             ctx.broken.append(("stage-hook", spec["id"], str(e)[-1500:]))
 
     # ---- 1. Coq side: regenerate extracted facts, rebuild the cone, read Print Assumptions
-    extra_corr = sorted({d["corr_module"].replace(".", "/") + ".v" for d in spec.get("drivers", []) if d.get("corr_module")})
+    extra_corr = sorted({d["corr_module"].replace(".", "/") + ".v" for d in spec.get("drivers", []) if d.get("corr_module")}
+                        | {m.replace(".", "/") + ".v" for m in spec.get("extra_corr_modules", [])})
     targets = [pfile[:-2] + ".vo", corr_file[:-2] + ".vo"] + [t[:-2] + ".vo" for t in spec.get("extra_targets", []) + extra_corr]
     ok, failing, out = vlib.prepare_coq(ctx, targets)
     names, bad = vlib.obligations(ctx.coq, pfile)
@@ -110,7 +111,7 @@ def _run(ctx, spec):
             ctx.broken.append(("driver-run", d["test"], r.out[-3000:]))
         for c in r.cases:
             c["_driver"] = d["test"]
-            c["_corr"] = d.get("corr_module", corr)
+            c["_corr"] = c.get("corr") or d.get("corr_module", corr)
         all_cases += r.cases
 
     # implementation-only assertions reported by drivers ({"impl_violation": "...", ...})
